@@ -222,7 +222,7 @@ Theorem C09_source_va_read_unknown_encoding : forall rf rp fo po k m h e t s2, k
 Proof.
   intros rf rp fo po k m h e t s2 Hk Hb N1 N2 N3.
   destruct (va_read_source rf rp fo po k (e :: t :: s2) m h Hb ltac:(intros t' s' E; injection E as E _; lia)) as (f0 & F). exists f0. intros f Hf.
-  destruct (F f Hf) as (st & fin & C & _ & MT & Out). specialize (MT Hk).
+  destruct (F f Hf) as (st & fin & C & _ & MT & Out & _). specialize (MT Hk).
   assert (EM : Va.va_read false None (e :: t :: s2) = Err SBDF_ERROR_UNKNOWN_VALUEARRAY_ENCODING).
   { unfold Va.va_read, rd_bind, vt_read. cbn [read_int8]. unfold SBDF_PLAINARRAYENCODINGTYPEID, SBDF_RUNLENGTHENCODINGTYPEID, SBDF_BITARRAYENCODINGTYPEID.
     replace (e =? 1) with false by lia. replace (e =? 2) with false by lia. replace (e =? 3) with false by lia. reflexivity. }
@@ -237,7 +237,7 @@ Theorem C09_source_va_read_negative_rows : forall rf rp fo po k m h t n s3, k < 
 Proof.
   intros rf rp fo po k m h t n s3 Hk Hb Hr Hn.
   destruct (va_read_source rf rp fo po k (2 :: t :: enc32 false n ++ s3) m h Hb ltac:(intros t' s' E; discriminate E)) as (f0 & F). exists f0. intros f Hf.
-  destruct (F f Hf) as (st & fin & C & _ & MT & Out). specialize (MT Hk).
+  destruct (F f Hf) as (st & fin & C & _ & MT & Out & _). specialize (MT Hk).
   assert (EM : Va.va_read false None (2 :: t :: enc32 false n ++ s3) = Err SBDF_ERROR_INVALID_SIZE).
   { unfold Va.va_read, rd_bind, vt_read, rfail. cbn [read_int8]. change (2 =? SBDF_PLAINARRAYENCODINGTYPEID) with false. change (2 =? SBDF_RUNLENGTHENCODINGTYPEID) with true. cbv iota.
     destruct (rspec_int32 false n Hr) as [E32 _]. rewrite (E32 s3). replace (n <? 0) with true by lia. reflexivity. }
